@@ -66,9 +66,10 @@ def c04(ctx):
 
 @prop("C16")
 def c16(ctx):
-    from .rules import cap
+    from .rules import cap, witness
     cap.run(ctx)
     cap.cap2(ctx)
+    witness.run(ctx)
     return ctx.finish(explanation="capability closure over the whole-program call graph (msi+cfb) with slot-gated dyn dispatch; "
                       "every function in the closure is an obligation 'contains no write to the medium'")
 
